@@ -486,7 +486,11 @@ func makeTypeSizeConstFilter(src, varname string, op token.Token, rhsValue const
 				if isTypeParam(typ) {
 					return false
 				}
-				lhsValue := constant.MakeInt64(params.ctx.Sizes.Sizeof(typ))
+				size, ok := typeSize(params.ctx.Sizes, typ)
+				if !ok {
+					return false
+				}
+				lhsValue := constant.MakeInt64(size)
 				return constant.Compare(lhsValue, op, rhsValue)
 			})
 		}
@@ -495,7 +499,11 @@ func makeTypeSizeConstFilter(src, varname string, op token.Token, rhsValue const
 		if isTypeParam(typ) {
 			return filterFailure(src)
 		}
-		lhsValue := constant.MakeInt64(params.ctx.Sizes.Sizeof(typ))
+		size, ok := typeSize(params.ctx.Sizes, typ)
+		if !ok {
+			return filterFailure(src) // The size is unknown
+		}
+		lhsValue := constant.MakeInt64(size)
 		if constant.Compare(lhsValue, op, rhsValue) {
 			return filterSuccess
 		}
@@ -510,8 +518,13 @@ func makeTypeSizeFilter(src, varname string, op token.Token, rhsVarname string) 
 		if isTypeParam(lhsTyp) || isTypeParam(rhsTyp) {
 			return filterFailure(src)
 		}
-		lhsValue := constant.MakeInt64(params.ctx.Sizes.Sizeof(lhsTyp))
-		rhsValue := constant.MakeInt64(params.ctx.Sizes.Sizeof(rhsTyp))
+		lhsSize, lhsOK := typeSize(params.ctx.Sizes, lhsTyp)
+		rhsSize, rhsOK := typeSize(params.ctx.Sizes, rhsTyp)
+		if !lhsOK || !rhsOK {
+			return filterFailure(src) // The size is unknown
+		}
+		lhsValue := constant.MakeInt64(lhsSize)
+		rhsValue := constant.MakeInt64(rhsSize)
 		if constant.Compare(lhsValue, op, rhsValue) {
 			return filterSuccess
 		}
